@@ -74,11 +74,24 @@ claim("C20", PROOF,
       "Trusted: go/ssa builder, govc, solvers; assumed contracts of the prometheus client (child identity per label tuple, Counter.Add/Inc, Observer.Observe); floats uninterpreted. Not covered: cumulative bucket counts and goroutine-safety inside the client library.",
       "DESIGN.md 8/C20")
 
+claim("C14", PROOF,
+      "Proof of independence and merge safety for all inputs (frame obligations over exact append semantics: in-place when capacity allows): the HTTP and JSON targeter closures write only *tgt, their reader/scanner state and memory allocated during the call -- never the default headers' value slices, the default body, nor anything reachable from a target returned earlier; the target gets its own header map and own value slices; "
+      "required-field and nil-target errors; every index/slice expression of the line parser is in range (tokens[0], tokens[1], line[0], line[1:]); the static targeter returns tgts[n mod k] without touching the target list; ReadAllTargets appends every decoded target exactly once into fresh storage. Target.Request (C06) copies header values without aliasing.",
+      "Trusted: stubs for bufio.Scanner/Reader, strings, url.ParseRequestURI, os.ReadFile, regexp; trusted contracts of the generated easyjson decoder (jsonTarget.decode) and startsWithHTTPMethod. Stated precondition: the caller passes a target whose Header is nil (hit and ReadAllTargets do). "
+      "Not covered: that the http line grammar (comments, @file, blank lines) is parsed exactly as documented, the defaults-first ORDER of merged values, the JSON encoder/decoder round trip -- string-language / generated-code reasoning out of reach.",
+      "DESIGN.md 8/C14")
+
+claim("C15", CONC,
+      "Proof of the lock discipline and sequential specs for all schedules: static targeter -- the shared counter is only touched by one atomic add (declared `atomic`: any plain load/store is an obligation failure), the n-th draw returns tgts[n mod k] (lemma rotation_period; consecutive draws use distinct residues); "
+      "JSON targeter -- the reader is only used between Lock and Unlock of its mutex (obligation at every reader call), the lock is released on every path and everything after the section touches only locals, *tgt and fresh memory; HTTP targeter -- every access to the scanner state (peeked line, bufio.Scanner) happens with mu held, Lock first and deferred Unlock on every path.",
+      "Trusted lemma (not checked): mutual exclusion + the sequential contract of each critical section imply that every target is handed out exactly once and exhaustion is reported to every later caller; data races inside bufio/os are the stubs' business. Stated assumption: fewer than 2^63 draws.",
+      "DESIGN.md 8/C15")
+
 claim("C18", PROOF,
       "Proof (sequential part): firstOfEachIPFamily returns at most one address per IP family, each the first of its family in the input, and modifies nothing: the frame obligation 'no element of the (cache-owned) input slice changes' is discharged for all inputs.",
       "Trusted: go/ssa builder, govc, solvers, assumed contracts of net.ParseIP / net.IP.To4 (uninterpreted isIP/isV4).",
       "DESIGN.md 8/C18")
 
-for p in ["C07","C08","C09","C14","C15","C16","C17"]:
+for p in ["C07","C08","C09","C16","C17"]:
     na(p, "check not built yet (contracts planned in DESIGN.md section 8; engine features pending)")
 na("C11", "not applicable to contract-based verification: the property is the numerical accuracy of the external floating-point t-digest estimator (github.com/influxdata/tdigest); the in-repo code is three one-line delegations, so a contract could only restate an assumed contract of the library, which is the property itself (DESIGN.md section 9)")
